@@ -309,7 +309,9 @@ TRACE_LINES = [
 
 
 # entries of TRACE_LINES (two-tuples: other modules unpack them) that cannot use the common end year
-TRACE_PERIOD = {"project=MUN ": (2010, 2015), "gwId=KS": (1981, 1988), "soilId=903": (1981, 1986)}
+TRACE_PERIOD = {"project=MUN ": (2010, 2015), "gwId=KS": (1981, 1988), "soilId=903": (1981, 1986),
+                # four harvests with two legumes among them (the per-crop fixation figure of the fourth crop)
+                "soilId=902": (1983, 1995)}
 
 
 def common_period_lines():
